@@ -23,6 +23,7 @@ type PropSpec struct {
 	Title                   string    `json:"title"`
 	Runs                    []RunSpec `json:"runs"`
 	StringTrack             []string  `json:"string_track"` // names of string-track jobs (regl)
+	Ground                  []string  `json:"ground"`       // ground jobs (facts established by executing the input-free real code)
 	Bounded                 []string  `json:"bounded"`      // names of bounded stand-ins
 	Trusted                 []string  `json:"trusted_base"`
 	Assumptions             []string  `json:"assumptions"`
@@ -173,6 +174,11 @@ func runCheck(args []string, repo, specs, tier string, jobs int, verbose bool) i
 			}
 		}
 		externals = sortedKeys(w.externals)
+	}
+	for _, job := range ps.Ground {
+		obls, es := groundJob(job, repo, verifDir, prop)
+		all = append(all, obls...)
+		errs = append(errs, es...)
 	}
 	for _, job := range ps.StringTrack {
 		obls, es := reglJob(job, repo, prop, thorough)
